@@ -94,6 +94,9 @@ theorem strictSub_sub {a b : List Name} (h : strictSub a b = true) : âˆ€ c, c âˆ
   simp only [strictSub, Bool.and_eq_true, List.all_eq_true, List.contains_iff_mem] at h
   exact h.1
 
+@[simp] theorem Sel.toList_many (cs : List Name) : (Sel.many cs).toList = cs := rfl
+@[simp] theorem Sel.toList_one (c : Name) : (Sel.one c).toList = [c] := rfl
+
 /-! ### determine_column_projection -/
 
 theorem mem_unionCols {c : Name} {p : Parent} {deps : List Dep} {extra : List Name} :
